@@ -9,6 +9,7 @@
 #include <z3++.h>
 
 #include <chrono>
+#include <cstdlib>
 #include <cmath>
 #include <cstddef>
 #include <cstdint>
@@ -64,6 +65,7 @@ struct dec
     int nalt;
     bool forced;   // no alternative left to explore at this decision
     bool user;     // made by choose() (harness-level fork), not by a solver branch
+    unsigned seq;  // running number of the branch()/choose() invocation (replay alignment check)
 };
 
 struct token
@@ -91,6 +93,13 @@ public:
     std::map<unsigned, unsigned> memo_log, memo_sqrt;
     std::vector<z3::expr> memo;
     std::vector<std::string> events;   // free-form event log of the harness (per path)
+    std::map<unsigned, bool> decided;  // truth value of conditions already decided on this path
+    unsigned seq = 0;                  // branch()/choose() invocations on this path
+    // every term that decides control flow is kept alive for the whole process: z3 re-uses the ids of
+    // dead ASTs and its simplifier orders arguments by id, so keeping the terms alive makes the
+    // replayed prefix of a path build exactly the same terms as the original run
+    std::vector<z3::expr> immortal;
+    void keep(z3::expr const& e) { immortal.push_back(e); }
     unsigned timeout_ms = 60000;
     unsigned fresh_counter = 0;
     std::size_t conv_cap = 64;         // T -> size_t conversions: values >= cap are represented by cap
@@ -124,6 +133,8 @@ public:
         memo_sqrt.clear();
         memo.clear();
         events.clear();
+        decided.clear();
+        seq = 0;
         fresh_counter = 0;
         conv_cap_hit = false;
     }
@@ -195,12 +206,24 @@ public:
     bool branch(z3::expr const& c0)
     {
         z3::expr c = c0.simplify();
+        keep(c0);
+        keep(c);
+        ++seq;
         if (c.is_true()) return true;
         if (c.is_false()) return false;
+        {
+            // a condition that was decided earlier on this path keeps its value (no new decision)
+            auto it = decided.find(c.id());
+            if (it != decided.end()) return it->second;
+        }
 
         if (pos < prefix.size())
         {
             dec d = prefix[pos];
+            if (d.user || d.seq != seq)
+            {
+                throw abort_path{"replay-misaligned"};
+            }
             bool const last = (pos + 1 == prefix.size());
             ++pos;
             z3::expr side = (d.choice == 0) ? c : !c;
@@ -216,20 +239,31 @@ public:
             }
             trace.push_back(d);
             pc.push_back(side);
+            remember(c, d.choice == 0);
             return d.choice == 0;
         }
 
         ++pos;
         if (feasible(c))
         {
-            trace.push_back(dec{0, 2, false, false});
+            trace.push_back(dec{0, 2, false, false, seq});
             pc.push_back(c);
+            remember(c, true);
             return true;
         }
         // `c` is infeasible, so (the path condition being satisfiable) `!c` holds
-        trace.push_back(dec{1, 2, true, false});
+        trace.push_back(dec{1, 2, true, false, seq});
         pc.push_back(!c);
+        remember(c, false);
         return false;
+    }
+
+    void remember(z3::expr const& c, bool value)
+    {
+        z3::expr n = (!c).simplify();
+        keep(n);
+        decided[c.id()] = value;
+        decided[n.id()] = !value;
     }
 
     // harness-level n-way fork (no solver involved)
@@ -237,15 +271,20 @@ public:
     {
         if (n <= 1) return 0;
         int c = 0;
+        ++seq;
         if (pos < prefix.size())
         {
             dec d = prefix[pos];
+            if (!d.user || d.seq != seq || d.nalt != n)
+            {
+                throw abort_path{"replay-misaligned"};
+            }
             c = d.choice;
-            trace.push_back(dec{c, n, false, true});
+            trace.push_back(dec{c, n, false, true, seq});
         }
         else
         {
-            trace.push_back(dec{0, n, false, true});
+            trace.push_back(dec{0, n, false, true, seq});
         }
         ++pos;
         user_choices.push_back(c);
@@ -354,7 +393,7 @@ public:
         init(v, std::is_floating_point<A>());
     }
 
-    explicit real(z3::expr const& x) : k(FIN), e(x) {}
+    explicit real(z3::expr const& x) : k(FIN), e(x) { E().keep(x); }
 
     static real special(int kind)
     {
@@ -376,7 +415,14 @@ public:
         }
         if (g.branch(e <= g.ctx.real_val(-1)))
         {
-            g.ub("convert value <= -1 to size_t");
+            {
+                std::ostringstream o;
+                o << e;
+                std::string str = o.str();
+                if (str.size() > 300) str = str.substr(0, 300) + "...";
+                g.ub("convert value <= -1 to size_t: " + str);
+                if (std::getenv("SYM_DEBUG_UB")) { std::cerr << "UB pc:\n"; for (auto const& c : g.pc) std::cerr << "  " << c << "\n"; }
+            }
             throw abort_path{"ub:fptoui-negative"};
         }
         for (std::size_t i = 0; i < g.conv_cap; ++i)
